@@ -585,8 +585,9 @@ class ProgGen:
     if depth < 1 and self.p(0.25):
       out += self.klass(rng.choice(["In", "Inner"]), ind, depth + 1)
       n += 1
-    if self.p(0.05):
-      out += "%s__slots__ = ('a', 'b')\n" % ind
+    if self.p(getattr(self, "slots_p", 0.05)):
+      # search stage only (dup_slots): CPython accepts a repeated slot name and pytype emits it; K's generator never draws it
+      out += "%s__slots__ = %s\n" % (ind, "('a', 'b', 'a')" if getattr(self, "dup_slots", False) and self.p(0.5) else "('a', 'b')")
       n += 1
     if n == 0:
       out += ind + "pass\n"
